@@ -182,11 +182,13 @@ PROPS = {
                      "single_asset_blocked_by_swap_switch", "toggle_only_named_pool", "reenable_restores", "new_pool_all_enabled",
                      "MantraDex.C17NI.more_enabled_simulates", "MantraDex.C17NI.less_enabled_refuses_or_same", "MantraDex.C17NI.reply_simulates",
                      "MantraDex.C17NI.simulation_ignores_switches",
+                     "MantraDex.C17Tx.runTx_sim", "MantraDex.C17Tx.tx_more_enabled_simulates", "MantraDex.C17Tx.tx_less_enabled_same_or_rejected",
+                     "MantraDex.C17Tx.tx_rejected_only_by_switch", "MantraDex.C17Tx.history_simulates",
                      "MantraDex.C17Sys.lp_supply_increase_names_pool", "MantraDex.C17Sys.swaps_disabled_reserves_frozen",
                      "MantraDex.C17Sys.swaps_disabled_reserves_frozen_of_ids", "MantraDex.C17Sys.deposits_disabled_no_mint",
                      "MantraDex.C17Sys.withdrawals_disabled_no_burn", "MantraDex.C17Sys.toggle_tx_only_named_pool",
                      "MantraDex.C17Sys.created_pool_enabled"],
-        "extra_modules": ["MantraDex.Properties.C17NI", "MantraDex.Properties.C17Sys"],
+        "extra_modules": ["MantraDex.Properties.C17NI", "MantraDex.Properties.C17Sys", "MantraDex.Properties.C17Tx"],
         "streams": {"pm_hist": (160, 4000), "twin": (120, 3000)},
         "what": "swaps disabled: direct swap rejected, any route through the pool rejected as a whole, a single-asset deposit's whole transaction "
                 "rejected (through the runtime: its inner swap is a reply-on-success sub-message); deposits disabled: every deposit shape rejected; "
@@ -197,9 +199,12 @@ PROPS = {
                 "rollbacks, faults): with swaps disabled on a pool, whatever anybody sends, its reserves change only through a multi-asset deposit into it or a withdrawal from it "
                 "(direct swaps, routes of any shape, single-asset deposits are all refused as a whole); with deposits disabled the supply of its LP token never grows, with withdrawals "
                 "disabled it never shrinks; a toggling transaction leaves every other pool exactly as it was; a pool created by a transaction starts fully enabled with zero reserves; a "
-                "transaction that increases the supply of a pool's LP token is a ProvideLiquidity naming that pool",
-        "assumptions": ["non-interference is proved at the level of the pool manager's entry points (execute, reply, simulation query); across whole "
-                        "transactions on the implementation it is validated by the twin-deployment stream (mon_twin_c17)"],
+                "transaction that increases the supply of a pool's LP token is a ProvideLiquidity naming that pool. NON-INTERFERENCE OF WHOLE TRANSACTIONS AND HISTORIES (C17Tx): two WORLDS that "
+                "differ only in pool switches, the second at least as enabled as the first: every transaction the first accepts (any nesting, replies, rollbacks, any injected bank fault) the second "
+                "accepts too and the results are again equal up to switches - same balances, farm manager, reserves, LP supplies; what the second accepts the first either accepts with the same result or "
+                "rejects as a whole, and then only with `disabled`; along any history the less enabled world accepts, the two worlds stay equal up to switches (runTx_sim, tx_more_enabled_simulates, "
+                "tx_less_enabled_same_or_rejected, tx_rejected_only_by_switch, history_simulates; key lemma: no handler ever emits a reply-on-error sub-message that is a contract call)",
+        "assumptions": ["on the implementation the same statement is sampled by the twin-deployment stream (mon_twin_c17)"],
     },
     "C20": {
         "module": "MantraDex.Properties.C20", "ns": "MantraDex.C20",
@@ -332,8 +337,10 @@ PROPS = {
                      "sync_preserves_weightAt", "farm_terms_sum_eq_ledger", "epoch_share_floor", "query_eq_claim_single_lp",
                      "MantraDex.C07Split.spanReward_split", "MantraDex.C07Split.claim_split_total", "MantraDex.C07Split.claim_split_state",
                      "MantraDex.C06Sys.claim_pays_entries", "MantraDex.C06Sys.entry_shape",
-                     "MantraDex.C07Sys.owed_frozen_partial", "MantraDex.C07Sys.claim_never_exhausted", "MantraDex.C07Sys.claimed_eq_ledger"],
-        "extra_modules": ["MantraDex.Properties.C07Split", "MantraDex.Properties.C06Sys", "MantraDex.Properties.C07Sys"],
+                     "MantraDex.C07Sys.owed_frozen_partial", "MantraDex.C07Sys.claim_never_exhausted", "MantraDex.C07Sys.claimed_eq_ledger",
+                     "MantraDex.C07Q.query_eq_claim_partial", "MantraDex.C07Q.query_nonempty_claim_pays_or_refuses_partial",
+                     "MantraDex.C07Q.query_eq_claim_counterexample"],
+        "extra_modules": ["MantraDex.Properties.C07Split", "MantraDex.Properties.C06Sys", "MantraDex.Properties.C07Sys", "MantraDex.Properties.C07Q"],
         "streams": {"fm_hist": (160, 4000)},
         "also_tags": ["C06-overpaid"],   # C07 says "never more": the ledger monitor's over-payment tag decides C07 as well
         "what": "refinement core: the user scan and the total-weight scan of the compacted history compute the ledger's weight in effect (Spec.weightAt); "
@@ -346,7 +353,8 @@ PROPS = {
                 "independence (the only added hypothesis rules out a u128 overflow in the recomputation, reachable in the model only with farm budgets above 2^128: evaluated counterexample)",
         "assumptions": ["schedule independence is proved for splitting one claim into two (hence, by iteration, into any number) for users with one LP token and "
                         "no other operation in between; across interleaved operations of other users it is validated per generated claim by the independent "
-                        "ledger monitor; query=claim proved for users with one LP token"],
+                        "ledger monitor; query=claim proved for any number of LP tokens given unique farm identifiers (C07Q.query_eq_claim_partial; the invariant of C05Sys/C11Sys; the statement without it is "
+                        "refuted by an evaluated state with two farms sharing an identifier)"],
     },
 
     "C08": {
